@@ -104,7 +104,7 @@ Hypothesis Fmax : is_finite vmax = true.
 Hypothesis Pmax : (0 <= B2R vmax)%R.
 
 Theorem sar_frame_meets_spec (xs : list b64) :
-  all_finite xs = true -> sortedB xs = true ->
+  no_nan xs = true -> sortedB xs = true ->
   exists w cs, sar_frame ch bits vmax xs = Some (w, map Some cs) /\ sar_spec bits xs w cs = true.
 Proof.
   intros Hfin Hs.
@@ -112,8 +112,8 @@ Proof.
   destruct (chain_fits ch Hch bits w Hbits Ew) as [Hw _].
   assert (Hb1 : 1 <= bits) by lia.
   set (g := sar_acc bits vmax).
-  assert (FF : forall x, In x xs -> is_finite x = true).
-  { intros x Hx. unfold all_finite in Hfin. rewrite forallb_forall in Hfin. apply Hfin, Hx. }
+  assert (FF : forall x, In x xs -> bis_nan x = false).
+  { intros x Hx. unfold no_nan in Hfin. rewrite forallb_forall in Hfin. apply negb_true_iff, Hfin, Hx. }
   exists w, (map g xs). split.
   - unfold sar_frame. rewrite Ew. f_equal. f_equal. rewrite map_map. apply map_ext.
     intros x. apply sar_defined; assumption.
@@ -127,7 +127,7 @@ Proof.
       cbn [sortedB] in Hs. apply andb_prop in Hs. destruct Hs as [H1 H2].
       change (sortedZ (g a :: g b :: map g t) = true). cbn [sortedZ].
       apply andb_true_intro. split.
-      * apply Z.leb_le. apply sar_acc_monotone; try assumption;
+      * apply Z.leb_le. apply sar_acc_monotone_ext; try assumption;
           apply FF; [left|right; left]; reflexivity.
       * apply IH; [exact H2|]. intros x Hx. apply FF. right. exact Hx.
 Qed.
